@@ -63,6 +63,23 @@ theorem population_variance_nil :
 theorem population_std_dev_nil :
     IterStatistics.population_std_dev ([] : List α) = RFun.sqrt (RFun.nan : α) := rfl
 
+/-- a NaN FIRST entry ⇒ `population_variance` is NaN, whatever follows (the
+    `if sum.is_nan() { return f64::NAN }` guard; on one-entry data the update loop never runs, so
+    without the guard the entry would not reach the result) -/
+theorem population_variance_head_nan (x : α) (t : List α) (h : RFun.isNaN x = true) :
+    IterStatistics.population_variance (x :: t) = RFun.nan := by
+  simp [IterStatistics.population_variance, listNext, h]
+
+/-- `population_variance` of a single NaN entry is NaN -/
+theorem population_variance_singleton_nan (x : α) (h : RFun.isNaN x = true) :
+    IterStatistics.population_variance [x] = RFun.nan :=
+  population_variance_head_nan x [] h
+
+/-- a NaN first entry ⇒ `population_std_dev` is `sqrt NaN` (NaN in IEEE arithmetic) -/
+theorem population_std_dev_head_nan (x : α) (t : List α) (h : RFun.isNaN x = true) :
+    IterStatistics.population_std_dev (x :: t) = RFun.sqrt (RFun.nan : α) := by
+  simp [IterStatistics.population_std_dev, population_variance_head_nan x t h]
+
 /-- `covariance` of no data is NaN -/
 theorem covariance_nil (h10 : ¬ ((1.0 : α) < (0.0 : α))) :
     IterStatistics.covariance ([] : List α) [] = RFun.nan := by
@@ -128,6 +145,32 @@ theorem harmonic_loop_neg (l : List α) (i s : α) (h : ∃ x ∈ l, x < (0.0 : 
 theorem harmonic_mean_neg (xs : List α) (h : ∃ x ∈ xs, x < (0.0 : α)) :
     IterStatistics.harmonic_mean xs = RFun.nan := by
   simp [IterStatistics.harmonic_mean, harmonic_loop_neg xs _ _ h]
+
+/-! ### no negative entry ⇒ `harmonic_mean` is `n / Σ 1/|x|` in the carrier's own arithmetic
+    (the reciprocal is taken of `|x|`, so `-0.0` counts as the zero entry it is: on IEEE `Float`
+    `1/|-0.0| = +∞` cannot cancel `1/0.0 = +∞`; see `harmonic_mean_zeros_float` in FloatInst.lean) -/
+
+theorem harmonic_loop_nonneg (l : List α) (i s : α) (h : ∀ x ∈ l, ¬ x < (0.0 : α)) :
+    IterStatistics.harmonic_mean.loop1 l i s
+      = LoopR.done (l.foldl (fun i _ => i + (1.0 : α)) i,
+          l.foldl (fun s x => s + (1.0 : α) / RFun.abs x) s) := by
+  induction l generalizing i s with
+  | nil => simp [IterStatistics.harmonic_mean.loop1]
+  | cons a t ih =>
+    unfold IterStatistics.harmonic_mean.loop1
+    have ha : ¬ a < (0.0 : α) := h a (by simp)
+    simp only [ha, if_false, List.foldl_cons]
+    exact ih _ _ (fun x hx => h x (by simp [hx]))
+
+/-- `harmonic_mean` of data without negative entries is (count) / (Σ 1/|x|), both accumulated
+    left to right from `0.0` in the carrier's arithmetic — NaN when the count is not positive -/
+theorem harmonic_mean_of_nonneg (xs : List α) (h : ∀ x ∈ xs, ¬ x < (0.0 : α)) :
+    IterStatistics.harmonic_mean xs
+      = (if (0.0 : α) < xs.foldl (fun i _ => i + (1.0 : α)) (0.0 : α)
+          then xs.foldl (fun i _ => i + (1.0 : α)) (0.0 : α)
+            / xs.foldl (fun s x => s + (1.0 : α) / RFun.abs x) (0.0 : α)
+          else RFun.nan) := by
+  simp only [IterStatistics.harmonic_mean, harmonic_loop_nonneg xs _ _ h]
 
 /-! ### length mismatch ⇒ panic (`covariance`, `population_covariance`) -/
 
@@ -210,6 +253,10 @@ example : IterStatistics.mean ([] : List Float) = RFun.nan := mean_nil (by decid
 example : IterStatistics.variance [(3.0 : Float)] = RFun.nan := variance_singleton (by decide) _
 example : IterStatistics.covariance [(3.0 : Float)] [(4.0 : Float)] = RFun.nan :=
   covariance_singleton (by decide) _ _
+example : IterStatistics.population_variance [(RFun.nan : Float)] = RFun.nan :=
+  population_variance_singleton_nan _ (by decide)
+example : IterStatistics.population_variance [(RFun.nan : Float), 1.0, 2.0] = RFun.nan :=
+  population_variance_head_nan _ _ (by decide)
 example : IterStatistics.harmonic_mean [(1.0 : Float), -2.0, 3.0] = RFun.nan :=
   harmonic_mean_neg _ ⟨-2.0, by simp, by decide⟩
 example : IterStatistics.covariance [(1.0 : Float), 2.0] [(1.0 : Float)] = panicV :=
